@@ -248,10 +248,18 @@ def run(rep):
     from harness.props import c02
 
     c02.part_histories(rep, PROP)
+    # instance() expressions inside label text (InstanceExpr.tla), this property's clauses
+    from harness.props import _instexpr
+
+    _instexpr.run(rep, PROP)
 
 
 def replay(rep, case):
     c = case["case"]
+    if c.get("instexpr"):
+        from harness.props import _instexpr
+
+        return _instexpr.replay(rep, PROP, c)
     if c.get("refsyntax"):
         from harness.props import _refsyntax
 
